@@ -45,6 +45,15 @@ class World:
                 return BaseProfile(**d)
         self.Proc = Proc
 
+        class EmptyLine(Proc):          # a processor that is "empty" like a PassSequence without units: falsy, but not nothing
+            def __len__(self):
+                return 0
+
+        class Unsure(Proc):             # a processor whose truth value is False
+            def __bool__(self):
+                return False
+        self.flavours = [Proc, EmptyLine, Unsure]
+
     def newclass(self, c, bases, with_mixin):
         if not bases:
             pb = (self.Transport,)
@@ -63,7 +72,8 @@ class World:
         Proc = self.Proc
         if ret is None:
             return lambda unit: None
-        return lambda unit: Proc(ret)
+        flavour = self.flavours[fid % 3]       # only a factory that returns nothing is skipped - not one that returns a falsy unit
+        return lambda unit: flavour(ret)
 
     def solve(self, c, in_sequence):
         from pyroll.core import Profile, PassSequence
@@ -167,6 +177,7 @@ def history_cases(chk, rng):
            alone, and a pre-processor of the NEXT unit must not reach back into the previous unit's out profile"""
     from pyroll.core import Transport, Unit, Profile, PassSequence
     from pyroll.core.profile import Profile as BaseProfile
+    from shapely.affinity import rotate
     calls = []
 
     class Proc(Unit):
@@ -182,6 +193,10 @@ def history_cases(chk, rng):
             d = {k: v for k, v in in_profile.__dict__.items() if not k.startswith("_")}
             d['marks'] = tuple(d.get('marks', ())) + (self.pid,)
             return BaseProfile(**d)
+
+    class EmptyLine(Proc):
+        def __len__(self):
+            return 0
 
     def ip():
         return Profile.round(radius=10e-3, temperature=1273.15, strain=0, material="steel", length=1, t=0, marks=())
@@ -200,7 +215,7 @@ def history_cases(chk, rng):
             def make(answers=answers, state=state):
                 def factory(unit):
                     a = answers[state['k']]
-                    return None if a is None else Proc(a)
+                    return None if a is None else (EmptyLine(a) if a % 10 == 1 else Proc(a))
                 return factory
             (owner.pre_processors if kind == 'pre' else owner.post_processors).append(make())
             plans.append((kind, owner, answers, state))
@@ -250,6 +265,44 @@ def history_cases(chk, rng):
             return chk.fail('processor-history', f"in-place processors: next unit's in profile carries {list(n.in_profile.marks)}", data)
         if tuple(p.marks) != ():
             return chk.fail('post-touches-unit', "the caller's incoming profile was changed by an in-place processor", data)
+
+
+    # (c) real Rotator units as processors, fed with a profile that has been turned before: the processor's result must not reach back into
+    #     the unit's own outgoing state, nor into the out profile of the unit in front
+    from pyroll.core import Rotator
+    for angle in (45, 90, 180, 30):
+        class Turner(Rotator):
+            pass
+        Turner.post_processors.append(lambda unit, angle=angle: Rotator(rotation=angle, label="post-turn"))
+        Behind = type("Behind", (Transport,), {})
+        Behind.pre_processors.append(lambda unit, angle=angle: Rotator(rotation=angle, label="pre-turn"))
+        for layout in ('alone', 'sequence', 'behind-rotator'):
+            p = Profile.box(height=10e-3, width=20e-3, temperature=1273.15, strain=0, material="steel", length=1, t=0)
+            before_p = (set(p.classifiers), p.cross_section.wkt)
+            t = Turner(rotation=90, label="turner")
+            chk.cov['evaluations'] += 1
+            if layout == 'alone':
+                ret = t.solve(p)
+                watched = [t]
+            elif layout == 'sequence':
+                nxt = Transport(label="after", duration=1)
+                PassSequence([t, nxt]).solve(p)
+                watched = [t]
+            else:
+                first = Rotator(rotation=90, label="first")
+                b = Behind(label="behind", duration=1)
+                PassSequence([first, b]).solve(p)
+                watched = [first]
+            data = {'processor': f"Rotator({angle})", 'layout': layout}
+            for w in watched:
+                own = set(w.out_profile.classifiers)
+                want = set(w.in_profile.classifiers) | {'rotated'} | ({'vertical'} if w.rotation == 90 else set())
+                geo = rotate(w.in_profile.cross_section, w.rotation, origin=(0, 0))
+                if own != want or geo.symmetric_difference(w.out_profile.cross_section).area > 1e-12:
+                    return chk.fail('post-touches-unit', f"[{layout}] a Rotator({angle}) used as {'post-processor of the unit' if layout != 'behind-rotator' else 'pre-processor of the next unit'} "
+                                    f"changed the own outgoing state of {w.label!r}: classifiers {sorted(own)}, the unit itself produced {sorted(want)}", data)
+            if (set(p.classifiers), p.cross_section.wkt) != before_p:
+                return chk.fail('post-touches-unit', f"[{layout}] the caller's incoming profile was changed (classifiers now {sorted(p.classifiers)})", data)
 
 
 def run(chk):
